@@ -14,7 +14,7 @@ use crate::simlibc::{Call, Event, SimState};
 use serde::{Deserialize, Serialize};
 use serde_json::{json, Value};
 use std::collections::{BTreeMap, BTreeSet};
-use std::path::PathBuf;
+use std::path::{Path, PathBuf};
 
 pub const RULE: &str = "Scenario g is drawn from seed mix(VERIF_SEED, g): a logical program (instructions, labels, data, .equ/.set/.def/.undef, #define with .ifdef/.ifndef/.if/.elif/.else, macros, .device, segments, .org, messages; about a third made to fail) is split into a tree of 1-8 files, depth <= 4, cut only between balanced blocks (also inside conditional branches), and each include is given one of the documented locations: path as written (relative to cwd or absolute), directory of the including file or of an ancestor, a caller-supplied directory, an .includepath directory (absolute, or relative to the file containing the directive, which may itself have been found through a search directory; the directive sits before the include, at the top of the file or at the top of an ancestor); .exit with dead lines after it in included files and in main; one file included several times. The result of build_file(tree) is compared with build_str(paste(tree)). Then, inside the call sequence of a fault-free profile run: the file missing, vanishing between stat and open, stat/open/read failures, short reads, read caps 1/3/64, EINTR, a non-UTF-8 byte (quick: one seeded fault per scenario and pairs; thorough: additionally every call x every kind for a share of scenarios), plus re-runs with one used directory taken out of its documented place. Non-trivial: the tree has at least one include that is actually opened; distinct by (tree shape, location-kind vector, fired-rule list, program hash).";
 
@@ -58,6 +58,10 @@ pub struct Scenario {
     /// "The directory of the including file" is read as the directory the file was found in.
     #[serde(default)]
     pub symlinks: BTreeMap<String, String>,
+    /// files of the tree (keys of `files`, empty text) that are character devices on the disk - a
+    /// copy of the null device: it exists, it is no regular file, reading it yields nothing
+    #[serde(default)]
+    pub devices: Vec<String>,
     pub intent: String,
     pub config: String,
 }
@@ -117,6 +121,8 @@ struct TreeGen<'a> {
     twice: Option<usize>,
     twice_uses: usize,
     labels: Vec<String>,
+    /// indices of (empty) files that are to be device nodes
+    devices: Vec<usize>,
 }
 
 fn rel_from(from_dir: &str, to: &str) -> String {
@@ -291,7 +297,15 @@ impl<'a> TreeGen<'a> {
                         let t = self.files.len();
                         let k = self.r.usize(self.caller_dirs.len());
                         self.used_caller.insert(k);
-                        let body = vec!["    inc r4".to_string(), format!("    ldi r20, {}", self.r.below(200)), "    nop ; shared leaf".to_string()];
+                        let mut body = vec!["    inc r4".to_string(), format!("    ldi r20, {}", self.r.below(200)), "    nop ; shared leaf".to_string()];
+                        // half of them carry an include guard built on `.exit`: assembled at the
+                        // first inclusion only (so the body may define a label)
+                        if self.r.chance(1, 2) {
+                            let g = format!("SHARED_LEAF_{}_INCLUDED", t);
+                            let mut b = vec![format!(".ifdef {}", g), if self.r.chance(1, 2) { ".exit".to_string() } else { "    .exit".to_string() }, ".endif".to_string(), format!(".define {}", g), format!("shared_leaf_{}:", t)];
+                            b.extend(body);
+                            body = b;
+                        }
                         self.files.push((self.caller_dirs[k].clone(), format!("twice{}.inc", t), None, body));
                         self.prepend.push(vec![]);
                         self.has_children.push(false);
@@ -310,7 +324,12 @@ impl<'a> TreeGen<'a> {
                 let child = self.new_file(file);
                 let (written, pre) = self.place(child, file);
                 self.files[child].3 = match self.r.below(3) {
-                    0 => vec![],
+                    0 => {
+                        if self.r.chance(1, 2) {
+                            self.devices.push(child);
+                        }
+                        vec![]
+                    }
                     1 => vec![String::new(), "   ".to_string()],
                     _ => vec!["; nothing here".to_string()],
                 };
@@ -450,6 +469,7 @@ pub fn scenario_with(seed: u64, g: u64, layout: &Layout) -> Scenario {
         twice: None,
         twice_uses: 0,
         labels,
+        devices: vec![],
     };
     // now and then (or on request) a deep chain: every file holds a piece of the program and
     // includes the next one, so d files are open at the deepest point
@@ -589,6 +609,8 @@ pub fn scenario_with(seed: u64, g: u64, layout: &Layout) -> Scenario {
             symlinks.insert(k.clone(), format!("linked/store{}/{}", n, basename(&k)));
         }
     }
+    // device nodes only on a disk the tree has for itself
+    let devices: Vec<String> = if layout.cwd.is_none() { tg.devices.iter().map(|i| format!("{}/{}", tg.files[*i].0, tg.files[*i].1)).filter(|p| files.get(p).map(|t| t.trim().is_empty()).unwrap_or(false) && !symlinks.contains_key(p)).collect() } else { vec![] };
     let cfgs = ["free", "twice", "missing", "enum", "enum", "enum", "pair", "cap", "nonutf8", "enum", "twice"];
     let config = cfgs[tg.r.usize(cfgs.len())].to_string();
     let sc = Scenario {
@@ -607,6 +629,7 @@ pub fn scenario_with(seed: u64, g: u64, layout: &Layout) -> Scenario {
         then_write: BTreeMap::new(),
         then_remove: vec![],
         symlinks,
+        devices,
         intent: prog.intent,
         config,
     };
@@ -671,6 +694,7 @@ impl Disk {
                     std::fs::write(&tp, bytes).map_err(|e| format!("write {}: {}", target, e))?;
                     std::os::unix::fs::symlink(&tp, &fp).map_err(|e| format!("symlink {}: {}", p, e))?;
                 }
+                None if bytes.iter().all(|b| b.is_ascii_whitespace()) && sc.devices.contains(p) && make_null_device(&fp) => {}
                 None => std::fs::write(&fp, bytes).map_err(|e| format!("write {}: {}", p, e))?,
             }
         }
@@ -683,6 +707,28 @@ impl Disk {
             }
         }
         std::env::set_current_dir(self.root.join(pb(&sc.cwd))).map_err(|e| format!("chdir: {}", e))
+    }
+}
+
+/// A character device 1:3 (what /dev/null is) at `p`; false where the system does not allow it
+/// (not root, a nodev mount) - the file is then an ordinary empty file.
+fn make_null_device(p: &Path) -> bool {
+    use std::os::unix::ffi::OsStrExt;
+    let c = match std::ffi::CString::new(p.as_os_str().as_bytes()) {
+        Ok(c) => c,
+        Err(_) => return false,
+    };
+    let _ = std::fs::remove_file(p);
+    if unsafe { libc::mknod(c.as_ptr(), libc::S_IFCHR | 0o666, libc::makedev(1, 3)) } != 0 {
+        return false;
+    }
+    // a nodev mount lets the node be created but not opened
+    match std::fs::File::open(p) {
+        Ok(_) => true,
+        Err(_) => {
+            let _ = std::fs::remove_file(p);
+            false
+        }
     }
 }
 
@@ -722,6 +768,12 @@ pub fn run_tree_twice(disk: &Disk, sc: &Scenario) -> Result<(Outcome, TreeRun), 
             for (p, t) in &writes {
                 if let Some(d) = p.parent() {
                     let _ = std::fs::create_dir_all(d);
+                }
+                {
+                    use std::os::unix::fs::FileTypeExt;
+                    if std::fs::symlink_metadata(p).map(|m| m.file_type().is_char_device()).unwrap_or(false) {
+                        let _ = std::fs::remove_file(p); // the edit replaces the device node by a file
+                    }
                 }
                 let _ = std::fs::write(p, t);
             }
@@ -1212,6 +1264,11 @@ fn run_faulted(cx: &mut Ctx, sc: &Scenario, base: &Base, seed: u64, g: u64) -> u
         }
         d
     };
+    cx.stats.probe("include_guard_with_exit_taken_at_a_second_inclusion", sc.files.values().any(|t| t.starts_with(".ifdef SHARED_LEAF_")) && sc.edges.iter().filter(|e| e.2 == "c2").count() >= 2);
+    cx.stats.probe("included_file_is_a_device_node", {
+        use std::os::unix::fs::FileTypeExt;
+        sc.devices.iter().any(|d| std::fs::symlink_metadata(cx.disk.root.join(pb(d))).map(|m| m.file_type().is_char_device()).unwrap_or(false))
+    });
     cx.stats.probe("tree_in_directories_whose_names_are_not_utf8", has_raw(&sc.main_file) || sc.paths.iter().any(|p| has_raw(p)));
     cx.stats.probe("fault_fired_on_a_file_at_depth_2_or_more", run.state.trace.iter().any(|e| e.rule >= 0 && depth_of(&e.path) >= 2));
     cx.stats.probe("build_failed_under_fault", run.outcome.fails() && !fault_free.fails());
